@@ -23,7 +23,8 @@ def generate(k, mask_bits, t):
     """Library generation -> rows, or None when generation (legitimately) raises ValueError."""
     import numpy
     dsw = import_dsw()
-    result = lib_call(dsw.connect_coding_graph, observed_length=k, vertices=numpy.array(mask_bits, dtype=int),
+    result = lib_call(dsw.connect_coding_graph, observed_length=k,
+                      vertices=gens.pooled(numpy.array(mask_bits, dtype=int), "mask"),
                       threshold=t)
     if isinstance(result, Raised):
         return result
@@ -147,7 +148,7 @@ def drawn_cases(draw, tier):
         spec = {"mask": "".join(map(str, draw(gens.masks(k, densities))))}
     elif source == "local":
         k = draw(st.integers(2, kmax + (1 if tier != "quick" else 0)))
-        spec = {"local": draw(gens.local_filter_cfgs(k))}
+        spec = {"local": gens.relax_until_satisfiable(draw(gens.local_filter_cfgs(k)))}
     else:
         k = draw(st.integers(2, kmax))
         spec = {"user": draw(gens.user_filter_cfgs(k))}
